@@ -972,6 +972,23 @@ def parse_prng_facts():
         else:
             ok = t.count(text) == 1
         facts.append((name, ok))
+    o = norm(strip_test_modules(strip_comments(read("src/util/random/osu.rs"))))
+    for name, text in [
+        ("osu.rs: INT_TO_REAL = 1 / 2^31 and INT_MASK = 2^31 - 1",
+         "const INT_TO_REAL: f64 = 1.0 / (i32::MAX as f64 + 1.0); const INT_MASK: u32 = 0x7F_FF_FF_FF;"),
+        ("osu.rs: xorshift step (11 / 19 / 8) over x, y, z, w",
+         "let t = self.x ^ (self.x << 11); self.x = self.y; self.y = self.z; self.z = self.w; "
+         "self.w = self.w ^ (self.w >> 19) ^ t ^ (t >> 8); self.w"),
+        ("osu.rs: next_int masks the sign bit, next_double scales it by 2^-31",
+         "(INT_MASK & self.gen_unsigned()) as i32 } pub fn next_double(&mut self) -> f64 { INT_TO_REAL * f64::from(self.next_int()) }"),
+        ("osu.rs: next_int_range = (min + next_double * (max - min)) as i32 in f64",
+         "(f64::from(min) + self.next_double() * f64::from(max - min)) as i32"),
+        ("osu.rs: next_bool refills its 32 bit buffer from gen_unsigned and shifts otherwise",
+         "if self.bit_idx == 32 { self.bit_buf = self.gen_unsigned(); self.bit_idx = 1; } else { self.bit_idx += 1; "
+         "self.bit_buf >>= 1; } (self.bit_buf & 1) == 1"),
+        ("osu.rs: seeding constants", "x: seed as u32, y: 842_502_087, z: 3_579_807_591, w: 273_326_509, bit_buf: 0, bit_idx: 32,"),
+    ]:
+        facts.append((name, o.count(text) == 1))
     facts.append(("csharp.rs: the table is written only in initialize and internal_sample (5 assignments)",
                   len(re.findall(r"seed_array\[[^\]]+\]\s*(?:[-+]?=)(?!=)", t)) == 5))
     return [f"({coq_str(n)}, {'true' if ok else 'false'})" for n, ok in facts]
